@@ -37,6 +37,9 @@ REQUESTS = [
      ["bytes.len()", "size_of::<H>()", "bytes.as_ptr().align_offset(ALIGNMENT)", "bytes"]),
     ("ref_from_bytes", "multiboot2-common/src/lib.rs", r"DynSizedStructure<H>", "ref_from_bytes",
      ["hdr.payload_len()", "bytes.len()", "size_of::<H>()", "ptr_meta::from_raw_parts(ptr.cast(),dst_size)"]),
+    ("ref_from_ptr", "multiboot2-common/src/lib.rs", r"DynSizedStructure<H>", "ref_from_ptr", ["Self::ref_from_slice(slice)"]),
+    ("ref_from_slice", "multiboot2-common/src/lib.rs", r"DynSizedStructure<H>", "ref_from_slice",
+     ["BytesRef::<H>::try_from(bytes)", "Self::ref_from_bytes(bytes)"]),
     ("header_total_size_default", "multiboot2-common/src/lib.rs", r"trait\s+Header", "total_size",
      ["size_of::<Self>()", "self.payload_len()"]),
     ("tag_iter_next", "multiboot2-common/src/iter.rs", r"Iterator\s+for\s+TagIter", "next",
@@ -74,9 +77,24 @@ REQUESTS = [
     ("tag_type_val", "multiboot2/src/tag_type.rs", r"impl\s+TagType\b", "val", ["u32::from(*self)"]),
     ("mem_type_from_id", "multiboot2/src/memory_map.rs", r"From<MemoryAreaTypeId>\s+for\s+MemoryAreaType", "from", ["value.0"]),
     ("id_from_mem_type", "multiboot2/src/memory_map.rs", r"From<MemoryAreaType>\s+for\s+MemoryAreaTypeId", "from", ["value"]),
+    ("elf_iter_next", "multiboot2/src/elf_sections.rs", r"Iterator\s+for\s+ElfSectionIter", "next",
+     ["self.remaining_sections", "section.section_type()", "self.current_section", "self.string_section", "self.entry_size",
+      "self.current_section.offset(self.entry_size as isize)"]),
+    ("elf_section_get", "multiboot2/src/elf_sections.rs", r"impl\s+ElfSection\b", "get",
+     ["self.entry_size", "self.inner"]),
+    ("elf_end_address", "multiboot2/src/elf_sections.rs", r"impl\s+ElfSection\b", "end_address",
+     ["self.get().addr()", "self.get().size()"]),
     ("elf_section_type", "multiboot2/src/elf_sections.rs", r"impl\s+ElfSection\b", "section_type", ["self.get().typ()"]),
     ("fb_type_try_from", "multiboot2/src/framebuffer.rs", r"TryFrom<u8>\s+for\s+FramebufferTypeId", "try_from", ["value"]),
     # arithmetic helpers on stored values
+    ("fb_buffer_type", "multiboot2/src/framebuffer.rs", r"impl\s+FramebufferTag\b", "buffer_type",
+     ["FramebufferTypeId::try_from(self.framebuffer_type)", "reader.read_next_u16()#0", "reader.off", "self.buffer.len()",
+      "slice::from_raw_parts(reader.current_ptr().cast::<FramebufferColor>(),num_colors as usize,)",
+      "reader.read_next_u8()#0", "reader.read_next_u8()#1", "reader.read_next_u8()#2", "reader.read_next_u8()#3",
+      "reader.read_next_u8()#4", "reader.read_next_u8()#5"]),
+    ("reader_read_next_u8", "multiboot2/src/framebuffer.rs", r"impl<'a>\s+Reader<'a>", "read_next_u8", ["self.buffer.get(self.off).cloned()", "self.off"]),
+    ("reader_read_next_u16", "multiboot2/src/framebuffer.rs", r"impl<'a>\s+Reader<'a>", "read_next_u16",
+     ["self.read_next_u8()#0", "self.read_next_u8()#1"]),
     ("module_size", "multiboot2/src/module.rs", r"impl\s+ModuleTag", "module_size", ["self.mod_end", "self.mod_start"]),
     ("memory_area_end_address", "multiboot2/src/memory_map.rs", r"impl\s+MemoryArea\b", "end_address", ["self.base_addr", "self.length"]),
     ("efi_iter_next", "multiboot2/src/memory_map.rs", r"Iterator\s+for\s+EFIMemoryAreaIter", "next",
@@ -122,6 +140,19 @@ REQUESTS = [
     ("ctor_h_reloc", "multiboot2-header/src/relocatable.rs", r"impl\s+RelocatableHeaderTag\b", "new",
      ["flags", "min_addr", "max_addr", "align", "preference"]),
     ("efi_iter_len", "multiboot2/src/memory_map.rs", r"ExactSizeIterator\s+for\s+EFIMemoryAreaIter", "len", ["self.i", "self.entries"]),
+]
+
+# functions whose bodies are closure pipelines (`find` / `map` / `map_or_else`): the normalised token text of the body is
+# emitted (`<name>_text`) and pinned by a theorem - the selection logic of the getters lives in these few lines
+PINNED = [
+    ("mbi_get_tag", "multiboot2/src/boot_information.rs", r"impl<'a>\s+BootInformation<'a>", "get_tag"),
+    ("mbi_tags", "multiboot2/src/boot_information.rs", r"impl<'a>\s+BootInformation<'a>", "tags"),
+    ("mbi_module_tags", "multiboot2/src/boot_information.rs", r"impl<'a>\s+BootInformation<'a>", "module_tags"),
+    ("mbi_framebuffer_tag", "multiboot2/src/boot_information.rs", r"impl<'a>\s+BootInformation<'a>", "framebuffer_tag"),
+    ("mbi_efi_memory_map_tag", "multiboot2/src/boot_information.rs", r"impl<'a>\s+BootInformation<'a>", "efi_memory_map_tag"),
+    ("module_iter_next", "multiboot2/src/module.rs", r"Iterator\s+for\s+ModuleIter", "next"),
+    ("hdr_get_tag", "multiboot2-header/src/header.rs", r"impl<'a>\s+Multiboot2Header<'a>", "get_tag"),
+    ("hdr_iter", "multiboot2-header/src/header.rs", r"impl<'a>\s+Multiboot2Header<'a>", "iter"),
 ]
 
 INT_TYS = {"u8": ".u8", "u16": ".u16", "u32": ".u32", "u64": ".u64", "usize": ".usize"}
@@ -273,8 +304,10 @@ class Parser:
                 continue
             if self.at("let"):
                 self.i += 1
+                is_mut = False
                 if self.at("mut"):
                     self.i += 1
+                    is_mut = True
                 k, name = self.peek()
                 if k != "id" or self.at("(", 1):
                     raise Unsupported("let pattern")
@@ -286,7 +319,7 @@ class Parser:
                 self.eat("=")
                 e = self.expr()
                 self.eat(";")
-                stmts.append(("let", name, ty, e))
+                stmts.append(("let", name, ty, e, is_mut))
                 continue
             a = self.i
             e = self.expr(stmt=True)
@@ -505,7 +538,14 @@ class Parser:
                 arms.append((pat, guard, body))
             self.eat("}")
             return ("match", scrut, arms)
-        if self.at("for") or self.at("while") or self.at("loop"):
+        if self.at("while"):
+            self.i += 1
+            if self.at("let"):
+                raise Unsupported("while let")
+            c = self.expr(nostruct=True)
+            body = self.block()
+            return ("while", c, body)
+        if self.at("for") or self.at("loop"):
             raise Unsupported("loop")
         if k == "id":
             # path, optional generics, macro, struct literal
@@ -645,6 +685,8 @@ class Lowerer:
         self.mutated = []
         self.computed_keys = {}
         self.aliases = []
+        self.mut_receivers = set()     # `let mut x` / `&mut self`: calls on them may return a different value each time
+        self.call_count = {}
 
     # scope: name -> ("v", idx) | ("o", text)
     def fresh(self):
@@ -951,7 +993,13 @@ class Lowerer:
             r = self.lower(recv, scope, pre)
             if r[0] == "i":
                 return ("i", '(.c1 "Ok" %s)' % r[1])
-        # anything else is an uninterpreted input named by its source text
+        # anything else is an uninterpreted input named by its source text; a call on a MUTABLE receiver may return a
+        # different value each time: every occurrence is its own input (`text#k`)
+        root = re.match(r"([A-Za-z_]\w*)\.\w+\s*(?:::<[^>]*>)?\(", text)     # `x.method(` directly on the mutable binding
+        if root and root.group(1) in self.mut_receivers:
+            k = self.call_count.get(text, 0)
+            self.call_count[text] = k + 1
+            return self.opaque("%s#%d" % (text, k), scope)
         return self.opaque(text, scope)
 
     # ---- patterns: -> (test ir, scope with bindings); `m` = IR of the scrutinee variable
@@ -1070,7 +1118,9 @@ class Lowerer:
         s, rest = stmts[0], stmts[1:]
         cont = lambda sc: self.lower_stmts(rest, tail, sc, k)    # noqa: E731
         if s[0] == "let":
-            _, name, ty, e = s
+            _, name, ty, e, is_mut = s
+            if is_mut:
+                self.mut_receivers.add(name)
             e = strip_parens(e)
             if e[0] == "match":
                 idx = self.fresh()
@@ -1123,6 +1173,14 @@ class Lowerer:
                 return self.wrap_pre(pre, ir)
             if e[0] == "block":
                 return self.lower_stmts(e[1], e[2], dict(scope), lambda v, sc2: cont(self.merge(scope, sc2)))
+            if e[0] == "while":
+                # ONE iteration as a step function: condition false -> what follows the loop; otherwise the body, which
+                # either returns or reaches its end = `continue` (reported with the state like a return value)
+                pre = []
+                c = self.use(self.lower(e[1], scope, pre))
+                body = self.lower_stmts(e[2][1], e[2][2], dict(scope),
+                                        lambda v, sc2: self.ret_wrap('(.c0 "continue")', self.merge(scope, sc2)))
+                return self.wrap_pre(pre, "(.ite %s %s %s)" % (c, body, cont(scope)))
             if e[0] == "macro":
                 nm = e[1].split("::")[-1]
                 if nm in ("assert", "debug_assert"):
@@ -1206,6 +1264,7 @@ class Context:
         self.cr = gen_source.Crate()
         self.crate = ""
         self.tag_numbers = {}
+        self.last_mut_self = False
         self.all_text = {}
         for crate in ("multiboot2-common", "multiboot2", "multiboot2-header"):
             d = os.path.join(REPO, crate, "src")
@@ -1290,7 +1349,31 @@ class Context:
             regions.append(("", txt))
         for head, body in regions:
             # skip nested `mod tests`
-            for m in re.finditer(r"\bfn\s+" + re.escape(fname) + r"\s*(?:<[^>]*>)?\s*\(", body):
+            for m0 in re.finditer(r"\bfn\s+" + re.escape(fname) + r"\s*(?=[<(])", body):
+                j = m0.end()
+                if body[j] == "<":          # generic parameters, possibly nested
+                    depth = 0
+                    while j < len(body):
+                        if body[j] == "<":
+                            depth += 1
+                        elif body[j] == ">" and body[j - 1] != "-":
+                            depth -= 1
+                            if depth == 0:
+                                j += 1
+                                break
+                        j += 1
+                    while j < len(body) and body[j].isspace():
+                        j += 1
+                if j >= len(body) or body[j] != "(":
+                    continue
+
+                class _M:
+                    def __init__(self, e):
+                        self._e = e
+
+                    def end(self):
+                        return self._e
+                m = _M(j + 1)
                 pe = gen_source.matching(body, m.end() - 1, "(", ")")
                 params = body[m.end():pe - 1]
                 b0 = body.find("{", pe)
@@ -1302,6 +1385,7 @@ class Context:
                 hm = re.search(r"for\s+([A-Za-z_]\w*)", head) or re.search(r"impl(?:<[^>]*>)?\s+([A-Za-z_]\w*)", head) or re.search(r"trait\s+(\w+)", head)
                 if hm:
                     self_ty = hm.group(1)
+                self.last_mut_self = bool(re.match(r"\s*&\s*(?:'\w+\s+)?mut\s+self\b", params))
                 pnames = []
                 for prm in re.split(r",(?![^<(]*[>)])", params):
                     pm = re.match(r"\s*(?:mut\s+)?(\w+)\s*:", prm)
@@ -1315,12 +1399,15 @@ def translate(ctx, req, registry):
     name, path, impl_pat, fname, inputs = req
     ctx.crate = path.split("/")[0]
     self_ty, params, body = ctx.find_fn(path, impl_pat, fname)
+    mut_self = ctx.last_mut_self
     toks = tokenize(body)
     ps = Parser(toks)
     blk = ps.block()
     if ps.i != len(toks):
         raise Unsupported("trailing tokens")
     lw = Lowerer(ctx, inputs, self_ty, registry)
+    if mut_self:
+        lw.mut_receivers.add("self")
     assigned_self_fields(blk, lw.mutated)
     scope = {}
     ir = lw.lower_stmts(blk[1], blk[2], scope, lambda v, sc: lw.ret_wrap(v, sc))
@@ -1386,6 +1473,19 @@ def main(out_path, report_path=None):
             lines.append("def %s_aliases : List (String × String) := []" % name)
             report["not_translated"][name] = "%s: %s" % (type(ex).__name__, ex)
         lines.append("")
+    report["pinned"] = []
+    for (name, path, impl_pat, fname) in PINNED:
+        try:
+            ctx.crate = path.split("/")[0]
+            _self_ty, _params, body = ctx.find_fn(path, impl_pat, fname)
+            body = re.sub(r'"(?:[^"\\\\]|\\\\.)*"', '"..."', body)     # log / panic messages carry no meaning
+            text = untok(tokenize(body))
+            lines.append("def %s_text : Option String := some %s" % (name, json.dumps(text)))
+            report["pinned"].append(name)
+        except Exception as ex:      # noqa: BLE001
+            lines.append("def %s_text : Option String := none" % name)
+            report["not_translated"][name + "_text"] = "%s: %s" % (type(ex).__name__, ex)
+    lines.append("")
     lines.append("end Mb2.Gen.Fns")
     new = "\n".join(lines) + "\n"
     os.makedirs(os.path.dirname(out_path), exist_ok=True)
